@@ -907,7 +907,7 @@ impl<'a, 'b, 'ast> Visit<'ast> for BodyV<'a, 'b> {
         let close = br(e.body.brace_token.span.close());
         let it = format!("__it{n}");
         self.fc.edit(whole.0, er.0, format!("{{ let mut {it} = crate::shims::iter::ToIter::to_iter("), "R20.for");
-        self.fc.edit(er.1, open.1, format!("); loop\n{}\n{{ let {pat_txt} = match {it}.next() {{ Some(__x) => __x, None => break }};", inv.unwrap_or_default()), "R20.for");
+        self.fc.edit(er.1, open.1, format!("); loop\n{}\n{{ let ghost __prev{n} = {it}@.items; let {pat_txt} = match {it}.next() {{ Some(__x) => __x, None => break }};", inv.unwrap_or_default()), "R20.for");
         self.fc.edit(close.0, close.1, "} }", "R20.for");
         self.visit_expr(&e.expr);
         for st in &e.body.stmts {
